@@ -1,0 +1,77 @@
+//go:build verif
+
+package pdf
+
+import (
+	"bytes"
+	"fmt"
+)
+
+// Hooks for the verification harness of property C04 (/verif).  They add no
+// logic of their own: each one builds the arguments of an unexported function
+// of xref.go, calls it and reports the resulting table.
+
+// VerifXRefEntry is the projection of an xRefEntry.
+type VerifXRefEntry struct {
+	InStream   uint32
+	InStmGen   uint16
+	HasStream  bool
+	Pos        int64
+	Generation uint16
+}
+
+func verifXRefSeed(known []uint32) map[uint32]*xRefEntry {
+	xref := make(map[uint32]*xRefEntry)
+	for _, n := range known {
+		xref[n] = &xRefEntry{Pos: 7, Generation: 7}
+	}
+	return xref
+}
+
+func verifXRefProject(xref map[uint32]*xRefEntry) map[uint32]VerifXRefEntry {
+	res := make(map[uint32]VerifXRefEntry, len(xref))
+	for n, e := range xref {
+		if e == nil {
+			continue
+		}
+		res[n] = VerifXRefEntry{
+			InStream:   e.InStream.Number(),
+			InStmGen:   e.InStream.Generation(),
+			HasStream:  e.InStream != 0,
+			Pos:        e.Pos,
+			Generation: e.Generation,
+		}
+	}
+	return res
+}
+
+// VerifReadXRefTable runs readXRefTable on data (which starts at the keyword
+// "xref" and includes the trailer dictionary), with the object numbers in
+// known already present in the table.
+func VerifReadXRefTable(data []byte, known []uint32) (res map[uint32]VerifXRefEntry, trailer Dict, err error) {
+	defer func() {
+		if r := recover(); r != nil {
+			err = fmt.Errorf("panic: %v", r)
+		}
+	}()
+	xref := verifXRefSeed(known)
+	s := newScanner(bytes.NewReader(data), nil, nil)
+	trailer, err = readXRefTable(xref, s)
+	return verifXRefProject(xref), trailer, err
+}
+
+// VerifDecodeXRefStream runs decodeXRefStream on the decoded stream data.
+func VerifDecodeXRefStream(data []byte, w []int, subs [][2]uint32, known []uint32) (res map[uint32]VerifXRefEntry, err error) {
+	defer func() {
+		if r := recover(); r != nil {
+			err = fmt.Errorf("panic: %v", r)
+		}
+	}()
+	xref := verifXRefSeed(known)
+	var ss []*xRefSubSection
+	for _, s := range subs {
+		ss = append(ss, &xRefSubSection{Start: s[0], Size: s[1]})
+	}
+	err = decodeXRefStream(xref, bytes.NewReader(data), w, ss)
+	return verifXRefProject(xref), err
+}
